@@ -317,16 +317,10 @@ theorem step_sigs_shape (hsrc : SourceOk) (w : World) (op : Op) : SigShape w.sig
       · exact .same
       · split <;> exact .same
     · exact .same
-  | vInsert v s =>
-    simp only [step]; split
-    · split
-      · exact .same
-      · split <;> exact .same
-      · split
-        · exact .same
-        · split <;> exact .same
-      · exact .same
-    · exact .same
+  | vInsert v s => simp only [step]; (repeat' split) <;> exact .same
+  | vSbtLoad r fmt cache ss => simp only [step]; (repeat' split) <;> exact .same
+  | vSqlite r ss => simp only [step]; (repeat' split) <;> exact .same
+  | vLcaLoad r fmt ss => simp only [step]; (repeat' split) <;> exact .same
   | vSelect r v kw =>
     simp only [step]; split
     · split <;> exact .same
@@ -452,7 +446,18 @@ theorem step_views_shape (hsrc : SourceOk) (w : World) (op : Op) : ViewShape w.v
           · exact .same
           · exact .write v c vc _ rfl hcid hcell (.inl ⟨s, rfl⟩)
       · exact .same
+      · exact .same
+      · exact .same
     · exact .same
+  | vSbtLoad r fmt cache ss =>
+    simp only [step]; (repeat' split) <;>
+      first | exact .same | exact .alloc _ _ (by intro v c rc h; cases h)
+  | vSqlite r ss =>
+    simp only [step]; (repeat' split) <;>
+      first | exact .same | exact .alloc _ _ (by intro v c rc h; cases h)
+  | vLcaLoad r fmt ss =>
+    simp only [step]; (repeat' split) <;>
+      first | exact .same | exact .alloc _ _ (by intro v c rc h; cases h)
   | vSelect r v kw =>
     simp only [step]; split
     · next c vc hcid hcell =>
@@ -975,5 +980,27 @@ theorem select_shares' (w : World) (vc vc' : ViewCell) (kw : Sel)
     · split at h <;> cases h
   case lca =>
     split at h <;> cases h
+  case sbtdisk =>
+    split at h
+    · cases h
+    · split at h <;> cases h
+  case sqlite =>
+    split at h
+    · cases h
+    · split at h
+      · cases h
+      · split at h
+        · cases h
+        · injection h with h; subst h
+          exact ⟨rfl, by simp, by simp, by simp, by simp, rfl, rfl⟩
+  case lcasql =>
+    split at h
+    · cases h
+    · split at h
+      · cases h
+      · split at h
+        · cases h
+        · injection h with h; subst h
+          exact ⟨rfl, by simp, by simp, by simp, by simp, rfl, rfl⟩
 
 end Sm.Obj
